@@ -47,7 +47,9 @@ def zoned_section(chk, rng, quick):
     from elementpath.xpath2 import XPath2Parser
     from elementpath.xpath31 import XPath31Parser
     from elementpath.datatypes import Timezone
-    proved = chk.prove(['theories/C11/Zoned.v', 'theories/C11/ZonedProofs.v'], 'theories/C11/ZonedProperties.v')
+    import shape
+    shape.generate('C11')
+    proved = chk.prove(['theories/Gen/C11Shape.v', 'theories/C11/Zoned.v', 'theories/C11/ZonedProofs.v'], 'theories/C11/ZonedProperties.v')
     TZS = [None, None, 0, 60, -300, 840, -840, 330, -210]
     CTX = [None, 0, -300, 330, 840, -840]
     TODS = [0, tod_of(1, 0, 0, 0), tod_of(12, 0, 0, 0), tod_of(23, 0, 0, 0), tod_of(23, 59, 59, 999999), tod_of(10, 30, 15, 500000), tod_of(13, 59, 0, 0)]
